@@ -89,7 +89,19 @@ type c13Underlay struct {
 	gate  func() // optional: called inside DialContext (concurrency replays park here)
 	last  *c13Conn
 	tch   chan struct{} // current transport of this dialer (nil: none)
+	plain     bool           // the next dial yields a conn that is not a PacketConn
+	lastPlain *c13PlainConn
 }
+
+// a transport that can not carry datagrams (netproxy.Conn, but not a PacketConn)
+type c13PlainConn struct{ closes atomic.Int32 }
+
+func (c *c13PlainConn) Read(_ []byte) (int, error)        { return 0, io.EOF }
+func (c *c13PlainConn) Write(b []byte) (int, error)       { return len(b), nil }
+func (c *c13PlainConn) Close() error                      { c.closes.Add(1); return nil }
+func (c *c13PlainConn) SetDeadline(time.Time) error      { return nil }
+func (c *c13PlainConn) SetReadDeadline(time.Time) error  { return nil }
+func (c *c13PlainConn) SetWriteDeadline(time.Time) error { return nil }
 
 func (d *c13Underlay) DialContext(context.Context, string, string) (netproxy.Conn, error) {
 	d.mu.Lock()
@@ -102,6 +114,16 @@ func (d *c13Underlay) DialContext(context.Context, string, string) (netproxy.Con
 	}
 	if fail {
 		return nil, errors.New("c13: dial failed")
+	}
+	d.mu.Lock()
+	plain := d.plain
+	d.mu.Unlock()
+	if plain {
+		pc := &c13PlainConn{}
+		d.mu.Lock()
+		d.lastPlain = pc
+		d.mu.Unlock()
+		return pc, nil
 	}
 	c := &c13Conn{reads: make(chan error, 16), closeCh: make(chan struct{}), from: d.from}
 	d.mu.Lock()
@@ -303,8 +325,14 @@ func (e *c13EpEnv) digest(symOf map[int]bool) string {
 		}
 		ue.udpConnStateMu.Unlock()
 		sort.Ints(tup)
-		eps = append(eps, fmt.Sprintf("%d:f%sd%sc%dx%ss%sr%sn%dt%s", i, c13B(ue.failed.Load()), c13B(ue.dead.Load()), closes, xs,
-			c13B(ue.hasSent.Load()), c13B(ue.hasReply.Load()), int64(ue.natTimeout())/1e6, c13JoinInts(tup)))
+		// expiry, NAT timeout and the traffic flags are compared only while somebody can still reach the
+		// endpoint: it is in the table, or it is an open endpoint a holder may write to
+		if e.isPooled(ue) || (!ue.failed.Load() && closes == 0) {
+			eps = append(eps, fmt.Sprintf("%d:f%sd%sc%dx%ss%sr%sn%dt%s", i, c13B(ue.failed.Load()), c13B(ue.dead.Load()), closes, xs,
+				c13B(ue.hasSent.Load()), c13B(ue.hasReply.Load()), int64(ue.natTimeout())/1e6, c13JoinInts(tup)))
+		} else {
+			eps = append(eps, fmt.Sprintf("%d:f%sd%sc%dt%s", i, c13B(ue.failed.Load()), c13B(ue.dead.Load()), closes, c13JoinInts(tup)))
+		}
 	}
 	es := "-"
 	if len(eps) > 0 {
@@ -337,6 +365,8 @@ func (e *c13EpEnv) gocCall(k int, sym bool, natMs int, owner, drain, d int, outc
 	for i, u := range e.under {
 		u.mu.Lock()
 		u.fail = outcome == "gen" && i == d
+		u.plain = outcome == "notpkt" && i == d
+		u.lastPlain = nil
 		u.mu.Unlock()
 	}
 	opts := &UdpEndpointOptions{
@@ -903,9 +933,23 @@ func c13RunEpSeq(t *testing.T, s *VStream, stats *VStats, r *VRand) {
 					outcome = "gen"
 				case x == 1:
 					outcome = "noalive"
+				case x == 2 && rng.Chance(0.5):
+					outcome = "notpkt"
 				}
 				nat := nats[rng.Intn(len(nats))]
 				res, _ := e.goc(k, symOf[k], nat, owner, drain, d, outcome)
+				if outcome == "notpkt" {
+					// the dialled transport can not be used: it must have been closed, exactly once
+					e.under[d].mu.Lock()
+					pc := e.under[d].lastPlain
+					e.under[d].mu.Unlock()
+					if pc != nil {
+						stats.Inc("ep.goc.notPacketConn.dialled")
+						if n := pc.closes.Load(); n != 1 {
+							res += fmt.Sprintf(" unusable-transport-closed-%d-times", n)
+						}
+					}
+				}
 				stats.Inc("ep.goc." + strings.Fields(res)[0])
 				emit(fmt.Sprintf("ep goc %d %s %d %s %s %d %s", k, c13B(symOf[k]), nat, c13OptTok(owner), c13OptTok(drain), d, outcome), res)
 			case c < 38:
@@ -992,7 +1036,8 @@ func c13RunEpSeq(t *testing.T, s *VStream, stats *VStats, r *VRand) {
 					out = "not-in-pool"
 				}
 				stats.Inc("ep.remove." + out)
-				emit(fmt.Sprintf("ep remove %d %d", k, id), out)
+				// (Remove's return value is not compared: every caller ignores it; the state after it is)
+				emit(fmt.Sprintf("ep remove %d %d", k, id), "ok")
 			case c < 77:
 				id := pickEp()
 				if id < 0 || e.isPooled(e.eps[id]) {
